@@ -52,7 +52,8 @@ TRUSTED_BASE = [
 ]
 ASSUMPTIONS = ["node ids are non-negative ints; element symbols are ASCII letters/digits/'*' (premise els_ok of the soundness and invariance "
                "theorems: the serialisation quotes them without escaping); charge/hcount ints, aromatic bool",
-               "bond orders / standard_order are half-integer floats (never a mix of int and float for the same value); a missing "
+               "bond orders are half-integer floats or, in ITS / reaction-centre graphs, (before, after) pairs of them - one kind per graph "
+               "(the exact back-end cannot compare a float with a tuple); standard_order a half-integer float; a missing "
                "standard_order is a covered value of its own (the signature prints 0 vs 0.0, the nauty label '' vs '0.0')",
                "undirected simple graphs without self-loops (networkx.Graph): premise wf of the theorems"]
 TESTED_NOT_PROVED = ["history / provenance independence: in the model a graph IS its node list and edge list (no graph-level attributes, no object "
@@ -64,11 +65,14 @@ TESTED_NOT_PROVED = ["history / provenance independence: in the model a graph IS
                      "WL colours and Morgan labels are external inputs of the model (any ranking): faithfulness, soundness and "
                      "'function of the graph given the ranking' are proved for every ranking; that the rankings themselves are a function "
                      "of the graph is only exercised by the oracle (no invariance is claimed for these back-ends)",
-                     "SynRule: the decomposition of an ITS graph into (rc, left, right), explicit-hydrogen stripping and tuple-valued ITS "
-                     "orders are outside the model - the rule clause is proved for three fragment graphs with scalar orders; "
+                     "SynRule: the decomposition of an ITS graph into (rc, left, right) and explicit-hydrogen stripping are outside the "
+                     "model - the rule clause is proved for three fragment graphs (scalar or tuple-valued orders); "
                      "SynRule.__eq__ itself is evaluated against the model on rules assembled from fragment graphs (constructor "
                      "bypassed), real rules built from reaction SMILES are checked by the oracle only (45 rule cases)",
                      "whole-family soundness batches with more than 60 graphs (all 4-node classes) are oracle-only",
+                     "NautyCanonicalizer with other node_attrs / edge_attrs selections than GraphCanonicaliser passes, canonical_form's "
+                     "orbit output and max_depth, GraphCanonicaliser options (wl_iterations, morgan_radius, node_attrs, custom sort keys), the twin "
+                     "module synkit.Graph.Canon.canon_graph, canonicalise_graphs, CanonicalRule, SynRule.from_gml / canon=False: oracle only",
                      "hash() consistency of the wrappers (equal objects have equal hashes): oracle only"]
 
 
@@ -1375,7 +1379,8 @@ LEVEL_TEXT = ("Machine-checked proof (Coq) over an executable model of the four 
               "the individualisation-refinement search of nauty.py and the equality of the value wrappers: faithfulness and onto-1..N (all "
               "back-ends), signature = function of the graph (all back-ends), equal signatures => isomorphic (all back-ends), exact back-end "
               "invariant under any renumbering / re-ordering / re-orientation, wrappers equal exactly for isomorphic content - all for "
-              "every well-formed graph, no size bound.  The model is tied to the Python code on every run by comparing canonical permutation, "
+              "every well-formed graph incl. ITS graphs with (before, after) order pairs, no size bound; NautyCanonicalizer.graph_signature exact; the "
+              "reported automorphisms sound and complete.  The model is tied to the Python code on every run by comparing canonical permutation, "
               "best label, every _refine call, canonical graphs, serialisation strings, digest equality patterns and wrapper verdicts on "
               "exhaustive small scopes, symmetric families and seeded random graphs.")
 LEVEL_NOTE = ("Trusted: Coq kernel + vm_compute; the hand-written model and the harness encoders; networkx Graph semantics; collision-freeness of "
